@@ -66,6 +66,23 @@ def run(tier):
             k = next(i for i, o in enumerate(outs) if o != outs[0])
             res.add_violation("cli-nondet:" + _first_diff_checker(outs[0][2], outs[k][2]), "go-critic check -enableAll %s: output bytes differ between runs" % p,
                               {"dir": os.path.join(d, p), "run0": outs[0][2][-3000:], "runN": outs[k][2][-3000:]})
+    # error messages are outputs too: invalid configurations must be reported with the same bytes every time
+    bad_confs = [["-enable=ruleguard", "-@ruleguard.rules=" + os.path.join(vlib.REPO, "checkers/rules/rules.go"), "-@ruleguard.failOn=bogus"],
+                 ["-go=abc"], ["-enable=nosuchChecker"], ["-enable=ruleguard", "-@ruleguard.rules=no/such/*.go"], ["-@hugeParam.sizeThreshold=x"]]
+
+    def badrun(args):
+        outs = set()
+        for _ in range(10):
+            rc, so, se = vlib.sh([gc, "check"] + args + [gpats[0]], cwd=ws, timeout=120)
+            outs.add((rc, so, se))
+        return args, outs
+
+    for args, outs in vlib.parallel(badrun, bad_confs):
+        res.count("cli_runs", 10)
+        res.count("config_error_message_sets", 1)
+        if len(outs) > 1:
+            sample = sorted(o[2].strip()[-300:] for o in outs)[:3]
+            res.add_violation("cli-nondet-error-message:" + args[-1].split("=")[0].lstrip("-@"), "go-critic check %s: %d different outputs in 10 runs" % (" ".join(args), len(outs)), {"argv": args, "outputs": sample})
     pairs = res.counts.get("file_checker_pairs", 0)
     nt = res.counts.get("pairs_with_2plus_diagnostics", 0)
     cov = {
